@@ -46,6 +46,7 @@ def main (args : List String) : IO UInt32 := do
   | ["C16"] => runPure C16.handle; return 0
   | ["C16v"] => runPure C16.verdict; return 0
   | ["C16c"] => runPure C16.crawlHandle; return 0
+  | ["C16s"] => runPure C16.swapHandle; return 0
   | ["C16cv"] => runPure C16.crawlVerdict; return 0
   | ["C15"] => runPure C15.handle; return 0
   | ["C15v"] => runPure C15.verdict; return 0
